@@ -37,11 +37,15 @@ def prodL {R : Type} [OfNat R 1] [Mul R] : List R → R
   | [] => 1
   | a :: l => a * prodL l
 
-/-- Scalar-level external operations. -/
-structure Ops (K R : Type) where
+/-- Scalar-level external operations needed by inner products. -/
+structure IOps (K R : Type) where
   /-- embedding of a real (weight, scaling factor) into the data scalars -/
   rK : R → K
   conj : K → K
+
+/-- Scalar-level external operations needed by norms and distances (the exact driver
+instantiates only `IOps`: the modulus of a Gaussian rational is not rational). -/
+structure Ops (K R : Type) extends IOps K R where
   re : K → R
   /-- modulus `np.abs` -/
   abs : K → R
@@ -87,12 +91,12 @@ variable {K R : Type} [OfNat K 0] [Add K] [Mul K] [Sub K]
 
 /-- `_inner_default(x1, x2) = Σ x1ᵢ · conj(x2ᵢ)` (`np.dot`, `np.vdot(x2, x1)`, `tensordot`:
 all three branches compute this sum). -/
-def innerDefault (o : Ops K R) (n : Nat) (x y : Nat → K) : K :=
+def innerDefault (o : IOps K R) (n : Nat) (x y : Nat → K) : K :=
   sumTo n (fun i => x i * o.conj (y i))
 
 /-- `weighting.inner(x1, x2)`: `const * _inner_default(x1, x2)` resp.
 `_inner_default(x1 * array, x2)`. -/
-def tInner (o : Ops K R) : TW R → Nat → (Nat → K) → (Nat → K) → K
+def tInner (o : IOps K R) : TW R → Nat → (Nat → K) → (Nat → K) → K
   | .const c, n, x, y => o.rK c * innerDefault o n x y
   | .arr w, n, x, y => innerDefault o n (fun i => x i * o.rK (w i)) y
 
@@ -109,7 +113,7 @@ def tNorm (o : Ops K R) (rt : Roots R) : TW R → Expo R → Nat → (Nat → K)
   | .const c, .inf, n, x => c * vecNorm rt .inf n (fun i => o.abs (x i))
   | .const c, .one, n, x => rt.rpow c (1 / 1) * vecNorm rt .one n (fun i => o.abs (x i))
   | .const c, .gen p, n, x => rt.rpow c (1 / p) * vecNorm rt (.gen p) n (fun i => o.abs (x i))
-  | .arr w, .two, n, x => rt.sqrt (max (o.re (tInner o (.arr w) n x x)) 0)
+  | .arr w, .two, n, x => rt.sqrt (max (o.re (tInner o.toIOps (.arr w) n x x)) 0)
   | .arr w, .inf, n, x => maxTo n (fun i => o.abs (x i) * w i)
   | .arr w, .one, n, x => rt.rpow (sumTo n (fun i => rt.rpow (o.abs (x i)) 1 * w i)) (1 / 1)
   | .arr w, .gen p, n, x => rt.rpow (sumTo n (fun i => rt.rpow (o.abs (x i)) p * w i)) (1 / p)
@@ -169,7 +173,7 @@ def scalesBoundary (close1 : R → Bool) (unif : Bool) (axes : List (Axis R)) (w
 
 /-- `DiscretizedSpace._inner`: boundary entries of `x` scaled by the cell fraction
 (`frac ** (1 / 1.0)`), then the tensor-space inner product. -/
-def dInner (o : Ops K R) (close1 : R → Bool) (unif : Bool) (axes : List (Axis R)) (w : TW R)
+def dInner (o : IOps K R) (close1 : R → Bool) (unif : Bool) (axes : List (Axis R)) (w : TW R)
     (p : Expo R) (x y : Nat → K) : K :=
   if scalesBoundary close1 unif axes w p then
     tInner o w (axesSize axes) (fun i => x i * o.rK (bfac close1 (fun f => f) axes i)) y
@@ -238,7 +242,7 @@ variable {K R : Type} [OfNat K 0] [Add K] [Mul K]
 
 /-- `ProductSpace…Weighting.inner` from the component inner products `a k`:
 `const * np.sum(inners)` resp. `np.dot(inners, array)`. -/
-def pInner (o : Ops K R) : PW R → Nat → (Nat → K) → K
+def pInner (o : IOps K R) : PW R → Nat → (Nat → K) → K
   | .const c, m, a => o.rK c * sumTo m a
   | .arr w, m, a => sumTo m (fun k => a k * o.rK (w k))
 
@@ -319,7 +323,7 @@ def Space.hasInner : Space R → Bool
   | .prod m _ p comp => p.isTwo && (List.range m).all (fun k => (comp k).hasInner)
 
 /-- `space.inner(x, y)`. -/
-def Space.inner (o : Ops K R) (close1 : R → Bool) : Space R → El K → El K → K
+def Space.inner (o : IOps K R) (close1 : R → Bool) : Space R → El K → El K → K
   | .tens n w _, .vec x, .vec y => tInner o w n x y
   | .discr u axes w p, .vec x, .vec y => dInner o close1 u axes w p x y
   | .prod m w _ comp, .tup xs, .tup ys =>
